@@ -293,12 +293,12 @@ def history_independence(ctx, home, quick):
         w = C20.Watcher(root, os.path.join(root, "home"), y)
         bad = False
         try:
-            if not w.wait_quiescent(1, limit_s=30):
+            if not w.wait_quiescent_patient(1, limit_s=30):
                 raise Inconclusive("history %d: the watcher's first generation did not finish within 30 s wall" % si)
             for step, mi in enumerate(seq):
                 starts = w.counts()[0]
                 C20.save(os.path.join(root, "main/model.yml"), C20.MEANINGS[mi], "inplace")
-                if not w.wait_quiescent(starts + 1, limit_s=25):
+                if not w.wait_quiescent_patient(starts + 1, limit_s=25):
                     raise Inconclusive("history %d: no finished regeneration within 25 s wall after save %d" % (si, step))
                 ref = os.path.join(root, "ref%d" % step)
                 C20.write_tree(ref, 0)
